@@ -108,6 +108,18 @@ GROUPS = {
  "list_bare": [list, List, List[Any], list[Any]],
  "dict_bare": [dict, Dict, Dict[Any, Any], dict[Any, Any]],
  "tuple_bare": [tuple, Tuple, Tuple[Any, ...], tuple[Any, ...]],
+ "seq_bare": [typing.Sequence, collections.abc.Sequence, typing.Sequence[Any], collections.abc.Sequence[Any]],
+ "iterable_bare": [typing.Iterable, collections.abc.Iterable, typing.Iterable[Any]],
+ "collection_bare": [typing.Collection, typing.Collection[Any], collections.abc.Collection[Any]],
+ "mutseq_bare": [typing.MutableSequence, collections.abc.MutableSequence, typing.MutableSequence[Any]],
+ "absset_bare": [typing.AbstractSet, collections.abc.Set, typing.AbstractSet[Any]],
+ "mutset_bare": [typing.MutableSet, collections.abc.MutableSet[Any]],
+ "mapping_bare": [typing.Mapping, collections.abc.Mapping, typing.Mapping[Any, Any], collections.abc.Mapping[Any, Any]],
+ "mutmapping_bare": [typing.MutableMapping, collections.abc.MutableMapping, typing.MutableMapping[Any, Any]],
+ "set_bare": [set, typing.Set, typing.Set[Any], set[Any]],
+ "frozenset_bare": [frozenset, typing.FrozenSet, frozenset[Any]],
+ "deque_bare": [collections.deque, typing.Deque, typing.Deque[Any], collections.deque[Any]],
+ "defaultdict_bare": [collections.defaultdict, typing.DefaultDict, typing.DefaultDict[Any, Any]],
  "gen_any": [GenAny, GenAny[Any]],
  "gen_bound": [GenBound, GenBound[int]],
  "gen_constr": [GenConstr, GenConstr[Union[int, str]], GenConstr[Union[str, int]]],
@@ -281,16 +293,17 @@ def chk_lit_full_pool(sa, sb, sc, sd):
 ''', timeout=300, family="literal kernel (labelled enumeration of the whole 8-value pool)", bounds="8**3 + 8**4 combinations, native")
     mf = Module("c15_family").pre(SETUP).pre(FAMILY_SETUP)
     mf.nat("congruence", NAT_CODE, timeout=120, family="rewrite congruence (labelled enumeration)",
-           bounds="39 groups of equivalent spellings (union reorder/nest/duplicate/|, Optional, aliases vs builtin generics, bare generics, "
+           bounds="51 groups of equivalent spellings (union reorder/nest/duplicate/|, Optional, aliases vs builtin generics, bare generics, "
                   "literal merge/split, Literal[None]); equal+hash-equal+idempotent inside a group, unequal across groups")
     mf.nat("pred_spelling", PRED_CODE, timeout=300, family="equivalent spellings are equivalent predicates (labelled enumeration)",
-           bounds="every spelling of the 39 groups as the predicate of loader()/dumper() against every spelling as the requested type: the match matrix "
+           bounds="every spelling of the 51 groups as the predicate of loader()/dumper() against every spelling as the requested type: the match matrix "
                   "depends on neither spelling (checker level), and the marker provider is selected through Retort.get_loader/get_dumper (facade level)")
     mb = Module("c15_behaviour").pre(SETUP).pre(FAMILY_SETUP).pre(BEHAV_SETUP)
     mb.ob("builds", "x: int", "return not BUILD_ERRORS", timeout=20, family="behavioural equivalence", bounds="loader creation for every spelling")
     groups = ["opt_int", "int_str", "int_str_none", "list_int", "list_str", "dict_str_int", "tuple_var_int", "tuple_int_str", "seq_int",
               "lit01", "litFT", "lit0", "lit0F", "lit1T", "none", "lit_a_none", "lit_a_int", "lit_ab_none", "lit_01_none", "lit_1_none", "lit_0_none", "lit_F_none", "lit_empty_none", "list_bare", "dict_bare", "tuple_bare",
-              "int", "list_opt_int", "opt_list_int", "dict_str_list"]
+              "int", "list_opt_int", "opt_list_int", "dict_str_list",
+              "seq_bare", "iterable_bare", "collection_bare", "mutseq_bare", "absset_bare", "mutset_bare", "mapping_bare", "mutmapping_bare", "set_bare", "frozenset_bare", "deque_bare", "defaultdict_bare"]
     for g in groups:
         mb.ob(f"behav_{g}", "kind: int, d: Atom, e: Atom", f"return behav({g!r}, kind, d, e)",
               pre=["0 <= kind <= 6", "not isinstance(d, str) or d in STRS", "not isinstance(e, str) or e in STRS",
@@ -299,5 +312,5 @@ def chk_lit_full_pool(sa, sb, sc, sd):
               bounds="datum: atom None|bool|int in [-2,3]|str in ('', '1', 'a', 'k'), bare or in list/dict/tuple wrappers (7 shapes), strict and lax")
     return Plan("C15", [m, mf, mb],
                 assumptions=["groups of equivalent spellings are equivalent by construction (typing semantics)"],
-                bounds={"literal pool": str(k), "rewrite family": "39 groups"},
+                bounds={"literal pool": str(k), "rewrite family": "51 groups"},
                 outside=["type terms outside the family grammar"])
